@@ -71,18 +71,19 @@ type shadow struct {
 
 // Run is one controlled execution.
 type Run struct {
-	choose  Chooser
-	threads []*thread
-	cur     *thread
-	toSched chan *thread
-	mem     map[uintptr]*shadow
-	Races   []string
-	Events  []string // order of accesses to shared locations ("t0 W name")
-	Points  int
-	Preempt int
-	Spawned int // goroutines the library started itself
-	Dead    string
-	mapOnly bool
+	choose    Chooser
+	threads   []*thread
+	cur       *thread
+	toSched   chan *thread
+	mem       map[uintptr]*shadow
+	objClocks map[uintptr][]int // per shared object: clock of the last operation (SyncPoint)
+	Races     []string
+	Events    []string // order of accesses to shared locations ("t0 W name")
+	Points    int
+	Preempt   int
+	Spawned   int // goroutines the library started itself
+	Dead      string
+	mapOnly   bool
 }
 
 var (
@@ -99,7 +100,7 @@ func active() *Run {
 
 // Go runs the bodies as controlled threads under the chooser and returns the finished Run.
 func Go(choose Chooser, bodies ...func()) *Run {
-	r := &Run{choose: choose, toSched: make(chan *thread), mem: map[uintptr]*shadow{}}
+	r := &Run{choose: choose, toSched: make(chan *thread), mem: map[uintptr]*shadow{}, objClocks: map[uintptr][]int{}}
 	n := len(bodies)
 	for i := range bodies {
 		t := &thread{id: i, wake: make(chan struct{}), vc: make([]int, n)}
@@ -622,6 +623,60 @@ func ResetGlobals() {
 	for _, g := range globals {
 		g.ptr.Elem().Set(copyValue(g.init))
 	}
+	sharedObjs = map[uintptr]bool{}
+	for _, g := range globals {
+		collectShared(g.ptr.Elem(), 0)
+	}
+}
+
+// ---- objects shared through package-level variables
+//
+// An object that a package-level variable points to (a shared *token.FileSet, say) is shared by every
+// goroutine even if it synchronises internally, so the order of operations on it is part of the
+// schedule. The instrumenter places SyncPoint before calls of such objects' methods; it is a scheduling
+// point only for objects reachable from a registered package-level variable, and it orders the
+// operations like a lock would (no race is reported for them: they are internally synchronised).
+
+var sharedObjs = map[uintptr]bool{}
+
+func collectShared(v reflect.Value, depth int) {
+	if depth > 3 {
+		return
+	}
+	switch v.Kind() {
+	case reflect.Ptr:
+		if !v.IsNil() {
+			sharedObjs[v.Pointer()] = true
+			collectShared(v.Elem(), depth+1)
+		}
+	case reflect.Interface:
+		if !v.IsNil() {
+			collectShared(v.Elem(), depth+1)
+		}
+	case reflect.Struct:
+		for i := 0; i < v.NumField(); i++ {
+			collectShared(v.Field(i), depth+1)
+		}
+	}
+}
+
+// SyncPoint marks an operation on an internally synchronised object.
+func SyncPoint(p interface{}, name string) {
+	r := active()
+	if r == nil || r.mapOnly {
+		return
+	}
+	addr := ptrOf(p)
+	if addr == 0 || !sharedObjs[addr] {
+		return
+	}
+	r.point()
+	t := r.cur
+	r.Events = append(r.Events, fmt.Sprintf("t%d S %s", t.id, name))
+	clock := r.objClocks[addr]
+	vcJoin(&t.vc, clock)
+	r.objClocks[addr] = append([]int{}, t.vc...)
+	t.tick()
 }
 
 // GlobalNames lists the registered variables (for the evidence file).
